@@ -537,6 +537,20 @@ def used_and_edited(spec, sc, prerun=True):
 
 def run_core(case, build=None, epilogue=False, want=None):
     """Run the case; returns (violations, info, records)."""
+    if case.get('empty_event'):
+        # the event named '' is an event like any other (only None means "eventless")
+        import copy as _copy
+        case = _copy.deepcopy(case)
+        for t in case['spec']['transitions']:
+            if t.get('event') == 'e1':
+                t['event'] = ''
+        for o in case['spec']['states'] + case['spec']['transitions']:
+            for key in ('sends', 'sends_entry', 'sends_exit'):
+                for s_ in o.get(key) or []:
+                    if s_.get('kind', 'send') == 'send' and s_['name'] == 'e1':
+                        s_['name'] = ''
+        case['ops'] = [[op[0], ''] + list(op[2:]) if op[0] == 'q' and op[1] == 'e1' else op
+                       for op in case['ops']]
     spec = probes.instrument(case['spec'])
     # "ambient" features that must not change what a step does: in a quarter of the cases the
     # chart runs with contract checking on (conditions that hold, reading __old__ and sent()),
